@@ -125,11 +125,12 @@ Proof. vm_compute. reflexivity. Qed.
 Example retype_not_wt : wt_of P_retype = Some false.
 Proof. vm_compute. reflexivity. Qed.
 
-(* pub fn main(x: u8) -> u8 { let y = 1 + 2 + x; y }: ACCEPTED; unify re-types only the node `1 + 2`,
-   its literals stay 32 bits wide (the real compiler returns 32 output wires for this u8 function) *)
+(* pub fn main(x: u8) -> u8 { let y = 1 + 2 + x; y }: before fix 64720dd unify re-typed only the node `1 + 2`
+   (its literals stayed 32 bits wide, the compiled circuit had 32 output wires); now the compound operand is
+   constrained deeply and the tree is well typed *)
 Definition P_retype2 := prog1 [px "x" u8] u8
   [XSLet (pid "y") None (XOp BAdd (XOp BAdd (n_ 1) (n_ 2)) (id_ "x")); XSExpr (id_ "y")].
-Example retype2_not_wt : is_ok (run P_retype2) = true /\ wt_of P_retype2 = Some false.
+Example retype2_now_wt : is_ok (run P_retype2) = true /\ wt_of P_retype2 = Some true.
 Proof. vm_compute. split; reflexivity. Qed.
 
 (* pub fn main(x: u8) -> u8 { let z = [1, 2, 3][0] + x; z }: ACCEPTED; the access node is re-typed u8 over an
